@@ -1005,7 +1005,7 @@ class StructuredTypeUnmarshaller(AbstractUnmarshaller[_ST]):
         - [`typelib.serdes.itervalues`][]
     """
 
-    __slots__ = ("fields_by_var",)
+    __slots__ = ("fields_by_var", "required_keys")
 
     def __init__(self, t: type[_ST], context: ContextT, *, var: str | None = None):
         """Constructor.
@@ -1017,6 +1017,8 @@ class StructuredTypeUnmarshaller(AbstractUnmarshaller[_ST]):
         """
         super().__init__(t, context, var=var)
         self.fields_by_var = self._fields_by_var()
+        # A TypedDict is a plain dict at runtime, its constructor doesn't enforce required keys.
+        self.required_keys = frozenset(getattr(t, "__required_keys__", ()))
 
     def _fields_by_var(self):
         fields_by_var = {}
@@ -1046,4 +1048,9 @@ class StructuredTypeUnmarshaller(AbstractUnmarshaller[_ST]):
         decoded = serdes.load(val)
         fields = self.fields_by_var
         kwargs = {f: fields[f](v) for f, v in serdes.iteritems(decoded) if f in fields}
+        missing = self.required_keys - kwargs.keys()
+        if missing:
+            raise TypeError(
+                f"{self.t!r} missing required keys: {(*sorted(missing),)!r}"
+            )
         return self.t(**kwargs)
